@@ -58,6 +58,11 @@ def build_scenario(s):
             "grid_mixed_endpoint": abtem.GridScan(start=(0.3, 0.1), end=(2.7, 3.3), gpts=(3, 4), endpoint=(True, False))}[s["scan"]]
     tilt = {"none": (0.0, 0.0), "y_series": (0.0, [0.0, 6.0, 12.0]), "x_scalar_y_series": (3.0, [0.0, 4.0, -2.0])}[s.get("tilt", "none")]
 
+    def series_ctf(**kw):
+        # a weighted focal series centred on zero (one member has defocus exactly 0), averaged over
+        d = abtem.distributions.gaussian(standard_deviation=30.0, num_samples=5, center=0.0, sampling_limit=2.0, ensemble_mean=True)
+        return abtem.CTF(defocus=d, **kw)
+
     def run(lazy, max_batch):
         with warnings.catch_warnings():
             warnings.simplefilter("ignore")
@@ -65,12 +70,20 @@ def build_scenario(s):
                 w = abtem.PlaneWave(energy=100e3, tilt=tilt)
                 if s["ctf"]:
                     res = w.multislice(pot, lazy=lazy, max_batch=max_batch)
+                    if s.get("ctf_series"):
+                        res = res.apply_ctf(series_ctf(semiangle_cutoff=25), max_batch=max_batch)
+                        res = res if det is None else det.detect(res)
+                        return res.reduce_ensemble() if hasattr(res, "reduce_ensemble") and det is not None else res
                     res = res.apply_ctf(abtem.CTF(defocus=40, semiangle_cutoff=25))
                     return res if det is None else det.detect(res)
                 return w.multislice(pot, detectors=det, lazy=lazy, max_batch=max_batch)
             p = abtem.Probe(energy=100e3, semiangle_cutoff=25, defocus=20, tilt=tilt)
             if s["ctf"]:
                 res = p.multislice(pot, scan=scan, lazy=lazy, max_batch=max_batch)
+                if s.get("ctf_series"):
+                    res = res.apply_ctf(series_ctf(Cs=1e5, semiangle_cutoff=20), max_batch=max_batch)
+                    res = res if det is None else det.detect(res)
+                    return res.reduce_ensemble() if hasattr(res, "reduce_ensemble") and det is not None else res
                 res = res.apply_ctf(abtem.CTF(Cs=1e5, semiangle_cutoff=20))
                 return res if det is None else det.detect(res)
             return p.multislice(pot, scan=scan, detectors=det, lazy=lazy, max_batch=max_batch)
@@ -189,7 +202,7 @@ def run(ctx: Ctx):
         # one scenario of every (builder, scan, potential) stratum at every seed, then the seeded remainder
         seen, first, rest = set(), [], []
         for c in cases:
-            k = (c["builder"], c["scan"], c["potential"], c.get("tilt", "none"))
+            k = (c["builder"], c["scan"], c["potential"], c.get("tilt", "none"), bool(c.get("ctf_series")))
             (rest if k in seen else first).append(c)
             seen.add(k)
         cases = first + rest[:8]
